@@ -61,8 +61,9 @@ LD = "LayerRuleViolationDetector"
 REG.class_bases["LayerRuleViolationDetector"] = ["RuleViolationDetector"]
 REG.add(Contract("LayerMapping.get_layer_for_module_name", module=M_EA2, kind="method", status="bounded", pure=True,
                  params=dict(self="Opaque[LayerMapping]", module_name="Node"), returns="Opt[Str]",
-                 note="layer of the nearest listed dotted ancestor (bisect over sorted names): not under contract, covered by the bounded C05 / C14 stand-ins; "
-                      "used here as ONE uninterpreted function layer_of(mapping, name)"))
+                 note="in the layer detector's proofs (names uninterpreted) the lookup is ONE uninterpreted function layer_of(mapping, name); what that function is -- the layer "
+                      "listing the module or a DOTTED ancestor of it -- is proved separately on the real code in the string view (contracts/c_layermap.py: "
+                      "LayerMapping.get_layer_for_module_name@str, __init__, _get_layer, _get_layer_or_none); the link between the two views is by name, not by proof"))
 REG.macro("layer_of", ["L", "n"], "LayerMapping.get_layer_for_module_name(L, n)")
 REG.macro("cross_layer", ["L", "x"], "layer_of(L, mid(x[0])) != layer_of(L, mid(x[1]))")
 _ld_inner = dict(sig="for dependency in violating_dependencies", invariant=[
